@@ -34,7 +34,23 @@ def run_otsu(x, **kw):
                 return {"raises": type(e).__name__, "msg": str(e)[:200]}
 
 
+def expand(case):
+    """the flat value sequence of a case: explicit `data`, or run-length encoded `rle` = [[value, count], ...]
+    (large arrays: the abstract case stays a few runs long; NaN = null as in `data`)"""
+    if "rle" in case:
+        vals = [math.nan if v is None else v for v, _ in case["rle"]]
+        cnts = [int(c) for _, c in case["rle"]]
+        if case.get("dtype") == "int":
+            return np.repeat(np.array(vals, dtype=np.int64), cnts)
+        return np.repeat(np.array(vals, dtype=np.float64), cnts)
+    if case.get("dtype") == "int":
+        return np.array(case["data"], dtype=np.int64)
+    return np.array([math.nan if v is None else v for v in case["data"]], dtype=np.float64)
+
+
 def build(case):
+    if "rle" in case:
+        return expand(case).reshape(case["shape"])
     if case.get("dtype") == "int":
         return np.array(case["data"], dtype=np.int64).reshape(case["shape"])
     return np.array([math.nan if v is None else v for v in case["data"]], dtype=np.float64).reshape(case["shape"])
@@ -47,12 +63,17 @@ class C15(Prop):
     rule = ("arrays of 2..1500 (thorough: ..6000) values in 1-3 dimensions: two values only, sizes 2 and 3, uni-, bi- and "
             "multi-modal normal mixtures, heavy tails (lognormal, Cauchy-like), integer-valued incl. int64 arrays and "
             "values exactly on bin edges (0..256), gapped clusters with empty bins, large offsets, negative values, "
-            "NaNs at 0-60 % incl. first/last position; every case is also run with remove_nan and scaled by a power of "
+            "NaNs at 0-60 % incl. first/last position; 12 %: exactly mirror-symmetric data (2..6 value pairs, 4..200 "
+            "elements, small integers / dyadic fractions, centre- or edge-heavy: tied maxima in two separate runs of cuts); "
+            "6 %: two populations in the last (first) two bins plus a far outlier of mass 1..3, 2^10..2^20 elements, "
+            "run-length encoded (beyond ~2^18 elements the optimum is the last (first) cut; two such 2^20-element cases "
+            "are always run); every case is also run with remove_nan and scaled by a power of "
             "two. non-trivial = every case with >= 2 distinct values; distinct by canonical case hash")
     trusted = [
         "np.histogram(x, bins=256) (uniform bins between min and max, last bin closed) and np.argmax (first maximum) "
         "are external; the histogram NumPy returned is the input of the criterion check, and is itself compared with "
-        "the exact binning model when no value lies within 1e-9 bin widths (plus 8 ulps of the larger end point) of an edge",
+        "the exact binning model when the array has at most 6000 elements (larger: `binning-model-skipped:large`) and no "
+        "value lies within 1e-9 bin widths (plus 8 ulps of the larger end point) of an edge",
         "multiplying float data by a power of two is exact (no overflow/underflow in the generated range), which is "
         "where `scale_invariant` (exact arithmetic, every c > 0) transfers to the float computation bit for bit",
     ]
@@ -70,6 +91,11 @@ class C15(Prop):
         n = rng.choice([2, 3, 4, 10, 50, 200, 200, 500, 1000, 1500] + ([3000, 6000] if big else []))
         kind = rng.choice(["two", "uni", "bi", "bi", "multi", "lognormal", "cauchy", "int255", "int256", "poisson",
                            "gapped", "offset", "negative", "uniform", "outlier", "tiny-range"])
+        dtype = "float"
+        return self.gen_kind(rng, tier, kind, n)
+
+    def gen_kind(self, rng, tier, kind, n):
+        big = tier == "thorough"
         dtype = "float"
         if kind in ("uni", "uniform", "negative", "int255") and rng.random() < 0.7:
             n = rng.choice([1000, 1500, 2500] + ([6000] if big else []))  # dense histograms: unique maximiser
@@ -126,9 +152,121 @@ class C15(Prop):
             v = [float(x) for x in v]
         return kind, dtype, v
 
+    def gen_symmetric(self, rng):
+        """exactly mirror-symmetric data: 2..6 value pairs lo + a_i / hi - a_i with the same count on both sides,
+        4..200 elements, small integers or dyadic fractions (so that the float criterion is as symmetric as the exact
+        one), no interior value on a bin edge (a value on an edge falls into the bin to its right, which would break
+        the symmetry of the histogram); centre-heavy (counts grow towards the centre: cutting off either tail can
+        beat the central cut, the tied maxima are then two separate runs of cuts), edge-heavy or arbitrary counts"""
+        p = rng.choice([2, 2, 3, 3, 4, 5, 6])
+        mode = rng.choice(["integer", "integer", "dyadic", "dyadic-about-0"])
+        weight = rng.choice(["centre-heavy", "centre-heavy", "edge-heavy", "any"])
+        # a dominant central population: the inner values sit close to the centre of the range
+        tight = weight == "centre-heavy" and rng.random() < 0.7
+        dtype = "float"
+        if mode == "integer":
+            while True:
+                span = rng.randint(max(3, 2 * p - 1), rng.choice([12, 30, 64, 200]))
+                ok = [a for a in range(1, (span + 1) // 2) if (a * BINS) % span != 0]
+                if tight and len([a for a in ok if a > 0.35 * span]) >= p - 1:
+                    ok = [a for a in ok if a > 0.35 * span]
+                if len(ok) >= p - 1:
+                    break
+            offs = [0] + sorted(rng.sample(ok, p - 1))
+            lo = rng.choice([0, 1, -span, rng.randint(-20, 20), rng.randint(0, 1000)])
+            if span % 2 == 0 and rng.random() < 0.3:
+                lo = -span // 2
+            low = [lo + a for a in offs]
+            high = [lo + span - a for a in offs]
+            if rng.random() < 0.4:
+                dtype = "int"
+            else:
+                low, high = [float(v) for v in low], [float(v) for v in high]
+        else:
+            span = 2.0 ** rng.randint(-3, 8)
+            ks = sorted(rng.sample(range(90, 128) if tight else range(0, 128), p - 1))
+            offs = [0.0] + [span * (k + rng.choice([0.25, 0.5, 0.75])) / BINS for k in ks]
+            lo = -span / 2 if mode == "dyadic-about-0" else rng.choice([0.0, 1.0, -3.0, 100.0, -span, span * 0.75])
+            low = [lo + a for a in offs]
+            high = [lo + span - a for a in offs]
+        half = rng.choice([2, 3, 5, 9, 20, 50, 100])
+        half = max(half, p)
+        g = rng.choice([1.5, 2.0, 3.5, 6.0])
+        if weight == "any":
+            w = [rng.uniform(0.2, 5) for _ in range(p)]
+        else:
+            w = [g ** i * rng.uniform(0.8, 1.25) for i in range(p)]      # index 0 = the two extreme values
+            if weight == "edge-heavy":
+                w.reverse()
+        cnt = [max(1, int(round(x / sum(w) * half))) for x in w]
+        while 2 * sum(cnt) > 200:
+            cnt[cnt.index(max(cnt))] -= 1
+        v = []
+        for a, b, c in zip(low, high, cnt):
+            v += [a] * c + [b] * c
+        rng.shuffle(v)
+        return "symmetric-" + weight, dtype, v
+
+    def gen_extreme(self, rng, tier):
+        """optimum at the last (mirrored: the first) cut: two populations in the last two bins and a far outlier of
+        tiny mass that stretches the range to 256 bins.  Cutting off the outlier scores about m*n, the cut between
+        the two populations about a*b/256^2, so the extreme cut is the optimum only beyond ~2^18 elements: sizes
+        2^10..2^20, run-length encoded (the abstract case is a handful of runs)"""
+        side = rng.choice(["last", "first"])
+        large = rng.random() < 0.35
+        n = rng.choice([2 ** 19, 2 ** 20, 2 ** 20] if large else [2 ** 10, 2 ** 12, 2 ** 14, 2 ** 16, 2 ** 18])
+        if rng.random() < 0.3:
+            n += rng.randint(-5, 5)
+        dtype = "float"
+        if rng.random() < 0.2:
+            dtype, lo, span = "int", rng.choice([0, -1024, 7]), 1024             # quarter-bin positions are integers
+        else:
+            lo, span = rng.choice([(0.0, 1.0), (0.0, 256.0), (-1.0, 2.0), (3.0, 10.0), (1000.0, 64.0), (-0.7, 1.9)])
+        m = rng.choice([1, 1, 1, 2, 3])
+        pos = [(0.0, m)]                                                        # (bin position in [0, 256], count)
+        if rng.random() < 0.25:
+            pos.append((rng.randint(1, 250) + 0.5, 1))                          # a second straggler
+        a = int(round((n - sum(c for _, c in pos)) * rng.choice([0.5, 0.5, 0.4, 0.6, 0.3])))
+        b = n - sum(c for _, c in pos) - a
+        for base, tot, must in ((254, a, None), (255, b, 256.0)):
+            qs = rng.sample([0.25, 0.5, 0.75], rng.choice([1, 1, 2, 3]))
+            qs = [base + q for q in qs]
+            if must is not None:
+                qs = [must] + qs[:-1]
+            cuts = sorted(rng.sample(range(1, tot), len(qs) - 1))
+            parts = [y - x for x, y in zip([0] + cuts, cuts + [tot])]
+            pos += list(zip(qs, parts))
+        if side == "first":
+            pos = [(BINS - q, c) for q, c in pos]
+        if dtype == "int":
+            rle = [[int(lo + q * 4), c] for q, c in pos]
+        else:
+            rle = [[float(lo + span * q / BINS), c] for q, c in pos]
+        rng.shuffle(rle)
+        if dtype == "float" and rng.random() < 0.3:
+            rle.insert(rng.choice([0, len(rle) // 2, len(rle)]), [None, rng.choice([1, 2, max(1, n // 100)])])
+        n = sum(c for _, c in rle)
+        shape = [n]
+        if rng.random() < 0.6:
+            d = rng.choice([2, 4, 8, 64, 1024])
+            if n % d == 0:
+                shape = [d, n // d] if rng.random() < 0.7 or (n // d) % 2 else [d, 2, n // d // 2]
+        k = rng.choice([1, 2, 3, 10, -1, -7, 20, -20, -60, 100]) if dtype == "float" else rng.choice([1, 2, 5])
+        return {"kind": "extreme-cut-" + side, "dtype": dtype, "shape": shape, "rle": rle, "scale_exp": k}
+
     def generate(self, rng, tier):
-        kind, dtype, v = self.gen_values(rng, tier)
-        if dtype == "float":
+        r = rng.random()
+        if r < 0.06:
+            return self.gen_extreme(rng, tier)
+        if r < 0.18:
+            kind, dtype, v = self.gen_symmetric(rng)
+        else:
+            kind, dtype, v = self.gen_values(rng, tier)
+        if dtype == "float" and kind.startswith("symmetric"):
+            # NaNs are added, not substituted: the finite part stays mirror symmetric
+            for _ in range(rng.choice([0, 0, 0, 1, 3, len(v) // 2])):
+                v.insert(rng.choice([0, len(v), rng.randint(0, len(v))]), None)
+        elif dtype == "float":
             pn = rng.choice([0, 0, 0.02, 0.2, 0.6])
             if pn:
                 v = [None if rng.random() < pn else x for x in v]
@@ -160,6 +298,18 @@ class C15(Prop):
         yield {"kind": "symmetric", "dtype": "float", "shape": [4], "data": [0.0, 1.0, 9.0, 10.0], "scale_exp": 1}
         yield {"kind": "first-bin-heavy", "dtype": "float", "shape": [6], "data": [0.0, 0.0, 0.0, 0.0, 0.0, 1.0], "scale_exp": 1}
         yield {"kind": "last-bin-heavy", "dtype": "float", "shape": [6], "data": [0.0, 1.0, 1.0, 1.0, 1.0, 1.0], "scale_exp": 1}
+        # mirror-symmetric about 0, dyadic: centre-heavy (either tail cut beats the central cut) and edge-heavy
+        a, b = 0.265625, 1.765625
+        yield {"kind": "symmetric-centre-heavy", "dtype": "float", "shape": [2, 10],
+               "data": [-4.0, -a, a, -a, a, 4.0, -a, a, -a, a, -a, a, -b, b, a, -a, -4.0, a, -a, 4.0], "scale_exp": 2}
+        yield {"kind": "symmetric-edge-heavy", "dtype": "float", "shape": [10],
+               "data": [-4.0, 4.0, -4.0, 4.0, -4.0, 4.0, -0.765625, 0.765625, -4.0, 4.0], "scale_exp": -2}
+        # 2^20 elements: two populations in the last (first) two bins and one far outlier; the optimum is the extreme cut
+        h = 2 ** 19
+        yield {"kind": "extreme-cut-last", "dtype": "float", "shape": [1024, 1024],
+               "rle": [[0.0, 1], [254.5 / 256, h - 1], [1.0, h]], "scale_exp": 1}
+        yield {"kind": "extreme-cut-first", "dtype": "float", "shape": [2 ** 20 + 1],
+               "rle": [[3.5, h - 7], [2.0, h + 7], [258.0, 1]], "scale_exp": -3}
 
     # ------------------------------------------------------------------ evaluation
     def evaluate(self, case, ctx):
@@ -244,6 +394,18 @@ class C15(Prop):
             feats.add("best-cut-first")
         if rep["spec_best_index"] == BINS - 2:
             feats.add("best-cut-last")
+        if [int(v) for v in hist] == [int(v) for v in hist[::-1]]:
+            feats.add("mirror-symmetric-histogram")
+        tied = [j for j, c in enumerate(crit) if c == best]
+        if tied[-1] - tied[0] + 1 > len(tied):
+            feats.add("tied-maxima-in-separate-runs")
+        if case["kind"].startswith("extreme-cut"):
+            if rep["spec_best_index"] == BINS - 2 and len(near) == 1:
+                feats.add("extreme-cut:optimum-is-last-cut")
+            elif rep["spec_best_index"] == 0 and len(near) == 1:
+                feats.add("extreme-cut:optimum-is-first-cut")
+            else:
+                feats.add("extreme-cut:optimum-cuts-off-the-outlier")
         # --- correspondence with the mechanism model
         model_ok = rep["mech_is_spec"] and rep["model_index_is_best"]
         # The property leaves the choice among cuts that attain the maximum (exactly, e.g. across empty bins, or
@@ -276,10 +438,34 @@ class C15(Prop):
                     model_ok = model_ok and abs(dt - t) <= 16 * EPS * max(abs(lo), abs(hi))
             if "value-on-exact-edge" not in feats and case["kind"] == "int256":
                 feats.add("values-on-bin-edges")
+        else:
+            # the exact binning of the raw data (every value as a rational through the driver) is only done for
+            # small arrays; the histogram NumPy produced is still the input of all checks above
+            feats.add("binning-model-skipped:large")
         return outcome(impl, model, spec, spec_ok=spec_ok, model_ok=model_ok, features=feats)
 
     # ------------------------------------------------------------------ shrinking
     def shrink(self, case):
+        if "rle" in case:
+            rle = case["rle"]
+            if len(case["shape"]) > 1:
+                yield {**case, "shape": [sum(c for _, c in rle)]}
+                return
+
+            def mk(r):
+                r = [[v, c] for v, c in r if c > 0]
+                return {**case, "shape": [sum(c for _, c in r)], "rle": r}
+            for i in range(len(rle)):
+                if sum(c for j, (_, c) in enumerate(rle) if j != i) >= 2:
+                    yield mk(rle[:i] + rle[i + 1:])
+            if any(c > 1 for _, c in rle):
+                yield mk([[v, max(1, c // 2)] for v, c in rle])
+                for i, (v, c) in enumerate(rle):
+                    if c > 1:
+                        yield mk(rle[:i] + [[v, c // 2]] + rle[i + 1:])
+            if case["scale_exp"] not in (1,):
+                yield {**case, "scale_exp": 1}
+            return
         data = case["data"]
         n = len(data)
         if len(case["shape"]) > 1:
